@@ -34,6 +34,11 @@ mixed cb_raise (mixed x) { if (cnt-- <= 0) error ("c06 half-way\n"); return ({ x
 int cb_keep (mixed x) { if (cnt-- <= 0) error ("c06 half-way\n"); return 1; }
 int cb_cmp (mixed x, mixed y) { if (cnt-- <= 0) error ("c06 half-way\n"); return cnt & 1 ? -1 : 1; }
 mixed three (mixed x, mixed y, mixed z) { return ({ x, y, z }); }
+mixed keep2 (mixed k, mixed v, mixed x) { return 1; }
+mixed same2 (mixed k, mixed v, mixed x) { return ({ v, x }); }
+int cmp3 (mixed x, mixed y, mixed z) { return 0; }
+void receive_message (string c, string m) { }
+mixed store;
 
 // efuns / operators applied to slot values, results dropped; errors are caught
 void run_efun (int f, mixed a, mixed b) {
@@ -86,6 +91,44 @@ void run_efun (int f, mixed a, mixed b) {
   case 42: cnt = 1; r = filter_array (({ ({ a }), ({ b }), "x" + sizeof (b) }), (: cb_keep :)); r = map_array (({ a, b }), (: $1 + raise ($1) :)); break;
   case 43: r = implode (map_array (({ 1, 2, 3 }), (: "n" + $1 :)), (: $1 + ({ $2 }) :)); break;
   case 44: r = save_variable (({ a, b, this_object () }))  + raise (a); break;
+  // ---- efuns that take, keep or build references and were never called before (round 5) ----
+  case 45:
+    if (mapp (a)) { r = filter (a, "keep2", this_object (), b); r = map (a, "same2", this_object (), b); }
+    r = filter (([ "k" : a, 2 : ({ b }) ]), "keep2", this_object (), ({ b }));
+    r = map (([ "k" : a, ({ 1 }) : b ]), "same2", this_object (), ({ b }));
+    break;
+  case 46: r = unique_array (({ ({ a }), ({ b }), "s", 3 }), (: typeof ($1) + $2 :), "x"); r = unique_mapping (({ a, b, ({ a }), "s" }), (: typeof ($1) :)); break;
+  case 47: r = sort_array (({ ({ a }), ({ b }), ({ 1 }) }), "cmp3", ({ b })); r = sort_array (({ 3, 1, 2 }), (: $1 - $2 + sizeof ($3) :), ({ a })); break;
+  case 48: r = ({ a, 0, ([ ]) }); r[1] = r; r[2]["self"] = r; s1 = sprintf ("%O", r); r[2] = 0; r[1] = 0; break;   // cyclic while it runs
+  case 49: r = parse_command ("get sword from bag" + sizeof (a), ({ }), " 'get' %s 'from' %s ", s1, s2); r = ({ s1, s2 }); break;
+  case 50: r = ({ ({ a }), ([ 1 : b ]) }); i1 = sscanf ("ab 12 cd", "%s %d %s", r[0], i1, r[1]); s1 = "x" + sizeof (a); sscanf (s1 + " yy zz", "%s %s", s1, s2); break;
+  case 51: i1 = call_out ("cmp3", 100, ({ a }), b, 1); r = find_call_out (i1) + find_call_out ("cmp3"); r = call_out_info (); remove_call_out ("cmp3"); break;
+  case 71: i1 = call_out ((: cb_keep :), 100, ({ a }), b); r = find_call_out (i1); r = call_out_info (); remove_call_out (i1); break;   // not with injected errors: the handle would be lost
+  case 52: r = (: three, ({ a }), b :); r = evaluate (r, ([ 1 : a ])); r = (: three :); r = evaluate (r, a, b, ({ a, b })); r = function_owner ((: same, a :)); break;
+  case 53: r = bind ((: same, ({ a }) :), this_object ()); r = evaluate (r); break;
+  case 54: r = call_other (this_object (), ({ "three", ({ a }), b, 1 })); r = ({ this_object (), this_object () })->same (({ b })); break;
+  case 55: store_variable ("store", ({ a, ([ 1 : b ]) })); r = fetch_variable ("store"); store_variable ("store", 0); break;
+  case 56: r = reg_assoc ("abc12def", ({ "[0-9]+", "[a-z]+" }), ({ ({ a }), ({ b }) }), ({ 0 })); r = replace_string ("aXbXc" + sizeof (a), "X", "yy"); r = match_path (([ "/a" : ({ a }), "/a/b" : b ]), "/a/b/c"); break;
+  case 57: r = implode (({ ({ a }), ({ b }), ({ 1 }) }), (: $1 + $2 :), ({ })); r = implode (({ 1, 2 }), (: ({ $1, $2 }) :)); break;
+  case 58: r = refs (a) + refs (({ b })); r = functions (this_object ()); r = variables (this_object (), 1); r = call_stack (0) + call_stack (1) + call_stack (2); r = all_previous_objects (); break;
+  case 59: r = catch (throw (({ a, ([ 1 : b ]) }))); r = catch (error ("x" + sizeof (a) + "\n")); break;
+  case 60: r = allocate_buffer (8); r[0..3] = r[4..7]; r = read_buffer (r, 0, 4); r = crc32 (allocate_buffer (4)); break;
+  case 61: r = objects ((: $1 == this_object () :)); r = children ("/c06/main"); r = deep_inherit_list (this_object ()) + inherit_list (this_object ()); break;
+  case 62: r = repeat_string ("ab" + sizeof (a), 3); r = upper_case (r) + capitalize (r) + lower_case (r); r = set_bit ("", 5); r = clear_bit (r, 5); r = explode (r + "x", ""); break;
+  case 63: r = ({ a, b, 1, 2 }); r = r[0..<2] + r[<1..] + r[1..2]; r -= ({ b }); r &= ({ a, 1 }); r += r; break;
+  case 64: r = ([ 1 : a, "k" : ({ b }) ]); r += ([ 2 : b ]); r = r + ([ 1 : 0 ]); map_delete (r, 1); r = keys (r) + values (r); break;
+  case 65: { class c06cls o = new (class c06cls); o->f0 = ({ a }); o->f1 = o->f0 + ({ b }); r = o; r = copy (o); } break;
+  case 66: message ("cls", "text" + sizeof (a), ({ this_object () }), ({ })); message ("cls", "t" + sizeof (b), this_object ()); break;
+  case 67: r = restore_variable ("({1,({2,}),([\"k\":({3,}),]),})"); r = save_variable (({ r, a && 1 })); break;
+  case 68: r = map ("abc" + sizeof (a), (: $1 + 1 :)); r = filter (({ a, b, 1 }), (: $1 :)); break;
+  case 69: r = evaluate ((: $1 + raise ($2) :), ({ a }), b); break;
+  case 70:   // a mapping that grows through several table sizes and shrinks again, values and keys counted
+    r = ([ ]);
+    for (i1 = 0; i1 < 40; i1++) r[i1] = ({ a });
+    for (i1 = 0; i1 < 12; i1++) r[({ i1 })] = b;
+    for (i1 = 0; i1 < 40; i1 += 2) map_delete (r, i1);
+    r = r + ([ 1 : r[1] ]);
+    break;
   case 39: r = allocate_mapping (3); r["k"] = ({ a }); r[({ b })] = r["k"] + raise (b); break;
   }
 }
@@ -139,6 +182,7 @@ int do_op (string line) {
   case "mset": v[a][v[b]] = v[c]; break;
   case "mdel": map_delete (v[a], v[b]); break;
   case "newobj": obs[a] = new ("/c06/uobj"); break;
+  case "newobjr": obs[a] = new ("/c06/rc" + ({ "11", "12", "21", "31" })[b]); break;
   case "setvar": obs[a]->set (b, v[c]); break;
   case "getvar": v[a] = obs[b]->get (c); break;
   case "dest": destruct (obs[a]); break;
@@ -157,8 +201,19 @@ int do_op (string line) {
   case "srange": v[a][b..c] = w[4]; break;       // unlink_string_svalue + copy_lvalue_range
   case "rest": catch (restore_variable (w[1])); break;      // value builder on a (possibly damaged) save text
   case "resto": "/c06/robj"->rest (w[1]); break;            // the same through restore_object() of a file
-  case "inp": obs[a]->doinput (v[b], v[c]); break;
+  case "inpr": obs[a]->doinput2 (v[b], v[c]); break;
+  case "inp": obs[a]->doinput (v[b], v[c], (b + c) & 1); break;     // odd slot sum: get_char() (same bookkeeping, own code)
   case "err": boom (v[a], v[b], 3); break;
+  case "reclaim":
+    // reclaim_objects() walks the variables of every object, this one included: `v` (the slots), then `obs` (the handles)
+    a = reclaim_objects ();
+    break;
+  case "flush":
+    // after an injected error: what an aborted group may legitimately have left behind
+    store = 0;
+    while (remove_call_out ("cmp3") >= 0) ;
+    sprintf ("%d", 1);
+    break;
   case "efun":
     catch (run_efun (a, v[b], v[c]));
     // (s)printf keeps its output buffers after an error and releases them on its next call
